@@ -291,7 +291,10 @@ def P14(m, R):
             got = [(a1, b1), (a2, b2)]
             if keep is True and got == [(Sym(c=0), L1), (L1, L1 + L2)]:
                 got = want      # with the line breaks kept the pieces are contiguous: no gap to look for
-            if got != want:
+            if got != want and name == 'splitlines' and keep is False and not res['used_find'] and not (a1.t.get('G1') or a2.t.get('G2')):
+                gap = (a2 - b1)
+                problems.append('the dropped line break between two pieces is taken to be %r character(s) long: "\\r\\n" is two, so every piece after one is cut from the wrong offset' % gap)
+            elif got != want:
                 problems.append('pieces 1, 2 are sliced at [%r:%r], [%r:%r]; expected [%r:%r], [%r:%r] (L = piece length, SEP = separator length, G = gap found by find())'
                                 % (a1, b1, a2, b2, want[0][0], want[0][1], want[1][0], want[1][1]))
             R.check(not problems, f, res['loop'], 'piece k is self[c_k : c_k + len(piece_k)], c_(k+1) = c_k + len(piece_k)%s' % (' + len(sep)' if sep_given else ' (+ gap)'),
